@@ -157,6 +157,7 @@ func TestCheck(t *testing.T) {
 	defer r.Finish()
 	r.SetRule("codec: cases = (protocol id: valid UTF-8 of length {1,2,3,4,5,125..130,16381..16385,limit-2..limit} or PRNG 1..300) x (payload 0..4 KiB) x (read chunking {1 byte, all, PRNG, PRNG<=3, first read 1/2/3 bytes, header exactly, header+1, terminal error delivered together with the last bytes}) x (header from the reference framing | real marshaller), fed to the real readStreamEstablishHeader; malformed = {empty, zero length, length limit+1.. 2^64-1, truncated at each offset, >=10 continuation bytes, undecodable protobuf body, empty / invalid UTF-8 id}. " +
 		"e2e: real Controller accept pump + HandleIncomingStream + real OpenMountedStream over fake links backed by chunkPipes; harness controller records the HandleMountedStream directive parameters and reads the stream. " +
+		"e2e direct driver: the harness plays the accept pump and calls Controller.HandleIncomingStream itself with a chunkPipe end, so it knows when the call has returned: (every prefix of reference headers with ids of 1, 2, 5 bytes, 9 prefixes of a 2-byte-length header, the empty stream; 11 complete malformed headers) x (how the reads end after the sent bytes: clean EOF by half-close / full remote close, 9 read errors incl. context.Canceled, timeouts, closed-pipe, wrapped EOF, each alone or together with the last bytes; the stream stalls until the reader is parked and only then EOF / remote close / timeout / context cancellation / fault arrives; complete malformed headers also on a stream that never ends); on return a malformed header must have caused Close on the local stream end (Close calls are counted per end) and no HandleMountedStream lookup; valid headers through the same driver must be dispatched, also while the stream is still open. " +
 		"Oracle: valid => decoded id == written id, bytes consumed == header length exactly, handler sees (id, link local peer, link remote peer) and reads exactly the payload; malformed => error / stream closed and nothing dispatched. A case is non-trivial when the clause it targets was actually exercised (valid: decoded; malformed: rejected); distinct = distinct (class, id, payload length, chunking).")
 	limit := int(tc.VerifStreamEstablishMaxPacketSize())
 	r.Extra("stream_establish_max_packet_size", limit)
